@@ -77,9 +77,14 @@ func (a *aggregatedLabels) Without(labels ...logql.Label) logqlmetric.Aggregated
 // Key computes grouping key from set of labels.
 func (a *aggregatedLabels) Key() logqlmetric.GroupingKey {
 	h := xxhash.New()
+	// Terminate every name and value, so that ("ab","c") and ("a","bc")
+	// do not hash the same byte sequence. 0xff never occurs in valid UTF-8.
+	sep := []byte{0xff}
 	a.forEach(func(k, v string) {
 		_, _ = h.WriteString(k)
+		_, _ = h.Write(sep)
 		_, _ = h.WriteString(v)
+		_, _ = h.Write(sep)
 	})
 	return h.Sum64()
 }
